@@ -117,6 +117,13 @@ impl SwiftField for Field58D {
         // Party identifier can be on its own line (starting with /)
         // If first line is short and there are more lines, it's likely a party identifier
         if let Some(first_line) = lines.first() {
+            // A line starting with / is the party identifier, never a name line
+            if first_line.starts_with('/') && lines.len() == 1 {
+                return Err(ParseError::InvalidFormat {
+                    message: "Field 58D must have name and address after the party identifier"
+                        .to_string(),
+                });
+            }
             // Party identifier starts with / and is at most /1!a/34x = 37 characters
             if first_line.starts_with('/') && first_line.len() <= 37 && lines.len() > 1 {
                 // Entire first line is party identifier (stored without the leading / format prefix)
